@@ -52,7 +52,7 @@ static const char *const TEXTS[] = {"", "x", "hello world", " ", "a b", "1 < 2",
 static const char *const FOREIGN_TAGS[] = {"script", "style", "iframe", "B", "A", "IMG", "Br", "object", "svg", "_x", "b1", "h2", "inputx", "im"};
 static const char *const FOREIGN_ATTRS[] = {"onclick", "onerror", "HREF", "Src", "xmlns", "id", "Checked", "styles", "hre", "data"};
 static const char *const ENTITIES[] = {"&amp;", "&lt;", "&gt;", "&quot;", "&nbsp;", "&copy;", "&or;", "&#65;", "&#x3c;", "&#X3C;", "&#10;", "&#x10FFFF;", "&foo;", "&Amp;", "&amp", "&#0;", "&#8;", "&#x1F;", "&#127;", "&#x9f;", "&#xD800;",
-                                       "&#xDBFF;", "&#xDC00;", "&#xFFFE;", "&#xFFFF;", "&#x110000;", "&#99999999999999999999;", "&;", "&#;", "&#x;", "&#xg;", "&#-5;", "& ", "&", "&a b;", "&#65", "&apos;", "&#39;"};
+                                       "&#xDBFF;", "&#xDC00;", "&#xFFFE;", "&#xFFFF;", "&#x110000;", "&#99999999999999999999;", "&#x10000003C;", "&#4294967361;", "&#18446744073709551681;", "&#x0000000000000041;", "&#000000000065;", "&#X1000000000000003c;", "&#2147483713;", "&#9223372036854775873;", "&;", "&#;", "&#x;", "&#xg;", "&#-5;", "& ", "&", "&a b;", "&#65", "&apos;", "&#39;"};
 static const char *const COMMENTS[] = {"<!-- c -->", "<!---->", "<!-- - -->", "<!-- a b -->", "<!-- <b> -->", "<!-- > -->", "<!-- & -->", "<!-- -- -->", "<!-- ---> ", "<!-- x", "<!-- x --", "<!-->", "<!--->", "<!-- a -- >", "<!- - x -->",
                                        "<!--[if IE]><script>alert(1)</script><![endif]-->", "<!-- a --!>", "<! -- a -->", "<!--\n-->"};
 static const char *const ATTACKS[] = {"<script>alert(1)</script>", "<img src=x onerror=alert(1)>", "<", "<<", ">", ">>", "<b", "</", "</>", "< b>", "<b/ >", "<b / >", "</b/>", "</ b>", "<a\thref='x'>", "<img/src='x'/>",
@@ -97,6 +97,17 @@ struct Builder {
         default: return t.pick(ANYS);
         }
     }
+    // numeric character reference: {dec, hex in both cases} x leading zeros x value class (legal / illegal code points, k*2^32+cp,
+    // k*2^64+cp, 2^31+cp, 2^63+cp, word-size edges, 20..40 digit numbers); zero tape values give the plain "&#65;"
+    std::string numeric_ref() {
+        unsigned form = t.next(8); form = form < 3 ? NF_DEC : form - 2;
+        unsigned z = t.next(12); unsigned zeros = z < 11 ? NUM_ZEROS[z] : t.next(64);
+        unsigned vc = t.next(24); unsigned vclass = vc < 6 ? NV_CP : vc < 8 ? NV_2_32_CP : (vc - 6) % NV_N;
+        unsigned long cp = NUM_CPS[t.next(N_NUM_CPS + 6) % N_NUM_CPS];
+        if (t.next(8) == 7) cp = t.next(65536) * 17u % 0x110000;
+        unsigned long aux = t.next(65536);
+        return make_numeric_ref(form, zeros, vclass, cp, aux);
+    }
     void attr(int tag) {
         unsigned form = t.next(16);
         int ai = t.next(NATTR);
@@ -108,6 +119,7 @@ struct Builder {
         if (kind == K_BOOL && vr < 7) val = vr < 5 ? ATTRS[ai] : name;
         else if (vr < 8) val = value_for(kind);
         else val = value_for(K_NONE + (int)t.next(K_N));     // a value of some other language
+        if (t.next(10) == 9) val.insert(t.next((unsigned)val.size() + 1), numeric_ref());   // numeric reference inside the value
         out += form == 14 ? "" : form == 13 ? "\n" : form == 12 ? "\t " : " ";
         if ((kind == K_BOOL && !c.xhtml && vr < 7) || form == 11) { out += name; return; }   // bare
         char q = t.next(4) == 0 ? '\'' : '"';
@@ -153,7 +165,8 @@ struct Builder {
         switch (t.next(16)) {
         case 0: case 1: case 2: out += t.pick(TEXTS); break;
         case 3: case 4: case 5: case 6: case 7: element(depth); break;
-        case 8: case 9: out += t.pick(ENTITIES); break;
+        case 8: out += t.pick(ENTITIES); break;
+        case 9: out += numeric_ref(); break;
         case 10: out += t.pick(COMMENTS); break;
         case 11: case 12: out += t.pick(ATTACKS); break;
         case 13: raw_bytes(); break;
@@ -203,6 +216,38 @@ static vr::Outcome p_filter(XCase const &x) {
     return vr::ok();
 }
 
+// Deterministic grid over numeric character references (runs in the quick tier, unit g0):
+// {dec, hex lower, hex upper} x leading zeros {0,1,8,30} x value {cp, 2^32+cp, 2^33+cp, 2^64+cp, 2^31-1, 2^31, 2^32-1, 2^32, 0x110000, 0x10FFFF}
+// x cp in legal/illegal code points x {text, attribute value} x {xhtml, html} x {remove, escape} x numeric entities {on, off}
+// x {otherwise valid document, document that needs filtering}.
+static bool numeric_grid() {
+    static const unsigned FORMS[] = {NF_DEC, NF_HEX_LOWER, NF_HEX_UPPER};
+    static const unsigned ZEROS[] = {0, 1, 8, 30};
+    static const unsigned WITH_CP[] = {NV_CP, NV_2_32_CP, NV_2_33_CP, NV_2_64_CP};
+    static const unsigned CONSTS[] = {NV_2_31_M1, NV_2_31, NV_2_32_M1, NV_2_32, NV_110000, NV_10FFFF};
+    static const unsigned long CPS[] = {0x41, 0x3C, 0x26, 0x27, 0x20AC, 0x10FFFF, 0x9, 0x0, 0x1F, 0xD800, 0xFFFE};
+    std::vector<std::string> refs;
+    for (unsigned f : FORMS) for (unsigned z : ZEROS) {
+        for (unsigned v : WITH_CP) for (unsigned long cp : CPS) refs.push_back(make_numeric_ref(f, z, v, cp, 0));
+        for (unsigned v : CONSTS) refs.push_back(make_numeric_ref(f, z, v, 0, 0));
+    }
+    bool good = true; long n = 0;
+    for (int xhtml = 0; xhtml < 2; xhtml++) for (int esc = 0; esc < 2; esc++) for (int numeric = 0; numeric < 2; numeric++) {
+        // natural tags; title = regex ".*" on every tag; comments off; no encoding
+        unsigned char cf[CFG_LEN] = {(unsigned char)((xhtml ? 1 : 0) | (numeric ? 4 : 0) | (esc ? 8 : 0)), 0x00, 0xd5, 0x7a, 0x03, K_URI_DEF, 0xff, K_URI_LIST, 0xff, K_RE_ANY, 0xff,
+                                     K_RE_ANY, 0xff, K_RE_WORD, 0xff, K_INT, 0xff, K_BOOL, 0xff, K_RE_ALIGN, 0xff};
+        for (auto &r : refs) for (int where = 0; where < 2; where++) for (int dirty = 0; dirty < 2 && good; dirty++) {
+            XCase x; x.cfg.assign((const char *)cf, CFG_LEN);
+            x.text = where == 0 ? "a<b>" + r + "</b>z" : "<p title=\"" + r + "\">x</p>";
+            if (dirty) x.text += "<x>";
+            good = vr::run_direct("filter", x, p_filter); n++;
+        }
+    }
+    VR.cls("numeric-grid-cases", n);
+    counters().push();
+    return good;
+}
+
 // hand-written regression inputs (the repository's own examples and the classes the grammar is supposed to reach); each is run
 // under a handful of rule sets.  They keep the check honest if the random part should ever degrade.
 static bool fixed_cases() {
@@ -238,7 +283,7 @@ static bool fixed_cases() {
     }
     VR.cls("fixed-cases-run");
     counters().push();
-    return good;
+    return good && numeric_grid();
 }
 
 // rc_main calls VR.finish() itself, so the batched class counters are pushed from an exit hook that re-flushes the report
